@@ -4,6 +4,7 @@
    (Proofs/ConcatRechunk.v proves the same for concatMaps of Model/Concat.v directly; this
    version is independent of the value type.) *)
 From Eino Require Import Base.Util Model.Concat Model.ConcatMsgMap Proofs.Concat Proofs.ConcatRechunk.
+From Coq Require Import Sorting.Permutation.
 
 Section Keyed.
 Context {A : Type}.
@@ -214,6 +215,48 @@ Proof.
     assert (F' : fails (kstep kc ms')).
     { unfold kstep. apply (res_mapM_fails _ _ k); [apply HK, Hin|]. rewrite <- H. exact Fk. }
     unfold fails in F'. destruct (kstep kc ms'); [discriminate|exact I|exact I].
+Qed.
+
+(* the key loop in any order (Go iterates over the map of collected values in an arbitrary
+   order): the result is the same map *)
+Definition kstep_o (ord : list string -> list string) (ms : list (list (string * A))) : res (list (string * A)) :=
+  res_mapM (fun k => res_map (fun v => (k, v)) (kc (gvals_at k ms))) (ord (gkeys_of ms)).
+
+Theorem kstep_order ord (ms : list (list (string * A))) :
+  (forall l, Permutation (ord l) l) ->
+  match kstep_o ord ms, kstep kc ms with
+  | Ok a, Ok b => forall k, alist_get k a = alist_get k b
+  | Ok _, _ => False
+  | _, Ok _ => False
+  | _, _ => True
+  end.
+Proof.
+  intros Hp.
+  assert (HK : forall k, In k (ord (gkeys_of ms)) <-> In k (gkeys_of ms)).
+  { intros k. split; apply Permutation_in; [apply Hp|apply Permutation_sym, Hp]. }
+  unfold kstep_o.
+  destruct (res_mapM _ (ord (gkeys_of ms))) as [a|e|] eqn:Ea.
+  - apply gmapM_pairs_inv in Ea. destruct Ea as [Hfst Hget].
+    destruct (all_ok_mapM (fun k => res_map (fun v => (k, v)) (kc (gvals_at k ms))) (gkeys_of ms)) as [b Eb].
+    { intros k Hk. apply HK in Hk. destruct (Hget k Hk) as [v [Hv _]]. rewrite Hv. eexists; reflexivity. }
+    unfold kstep. rewrite Eb. apply gmapM_pairs_inv in Eb. destruct Eb as [Hfst' Hget'].
+    intros k. destruct (in_dec string_dec k (gkeys_of ms)) as [Hin|Hnin].
+    + destruct (Hget k (proj2 (HK k) Hin)) as [v [Hv Ga]]. destruct (Hget' k Hin) as [v' [Hv' Gb]].
+      rewrite Hv in Hv'. inversion Hv'; subst v'. congruence.
+    + rewrite (alist_get_None k a) by (rewrite Hfst; intros H; apply Hnin, HK, H).
+      rewrite (alist_get_None k b); [reflexivity|]. rewrite Hfst'. exact Hnin.
+  - assert (F : fails (res_mapM (fun k => res_map (fun v => (k, v)) (kc (gvals_at k ms))) (ord (gkeys_of ms))))
+      by (rewrite Ea; reflexivity).
+    apply res_mapM_fails_inv in F. destruct F as [k [Hin Fk]].
+    assert (F' : fails (kstep kc ms)).
+    { unfold kstep. apply (res_mapM_fails _ _ k); [apply HK, Hin|exact Fk]. }
+    unfold fails in F'. destruct (kstep kc ms); [discriminate|exact I|exact I].
+  - assert (F : fails (res_mapM (fun k => res_map (fun v => (k, v)) (kc (gvals_at k ms))) (ord (gkeys_of ms))))
+      by (rewrite Ea; reflexivity).
+    apply res_mapM_fails_inv in F. destruct F as [k [Hin Fk]].
+    assert (F' : fails (kstep kc ms)).
+    { unfold kstep. apply (res_mapM_fails _ _ k); [apply HK, Hin|exact Fk]. }
+    unfold fails in F'. destruct (kstep kc ms); [discriminate|exact I|exact I].
 Qed.
 
 End Interleave.
